@@ -6,6 +6,7 @@ import (
 	"go/token"
 	"go/types"
 	"strings"
+	"verifsa/internal/paths"
 
 	"golang.org/x/tools/go/ssa"
 
@@ -305,6 +306,68 @@ func shapeRules(c *core.Ctx) {
 		}
 		c.Decide(refuse, rule, "packet.Writer.WriteFixedLenString#refuse", fpos, "records an error iff len(s) > n",
 			"no branch `len(s) > n` that records the error: a value longer than its slot is not refused (or a fitting one is)")
+		// (a') must-pass-through: every path that is entered without an error and leaves without recording one has tested
+		// len(s) > n (false) and has appended to the buffer - no early exit may skip the fit test or the write.
+		if ps, err := paths.Enumerate(wfs, paths.Config{}); err != nil {
+			c.Unknown(rule, "packet.Writer.WriteFixedLenString#always-tested", fpos, "path enumeration failed: "+err.Error())
+		} else {
+			var problems []string
+			for _, p := range ps {
+				enteredWithError, stored, tested, appended := false, false, false, false
+				firstBranch := true
+				for _, e := range p.Events {
+					switch e.Kind {
+					case paths.EvBranch:
+						if subj, neq, ok := nilTest(e.Cond); ok && firstBranch {
+							if u, isU := subj.(*ssa.UnOp); isU {
+								if _, f, isF := fieldOfAddr(u.X); isF && f.Name() == "opError" && neq == e.Taken {
+									enteredWithError = true
+								}
+							}
+						}
+						firstBranch = false
+						if bo, ok := e.Cond.(*ssa.BinOp); ok {
+							l, r, op := bo.X, bo.Y, bo.Op
+							taken := e.Taken
+							switch op {
+							case token.LSS:
+								l, r, op = r, l, token.GTR
+							case token.LEQ: // len(s) <= n
+								op, taken = token.GTR, !taken
+							case token.GEQ: // n >= len(s)
+								l, r, op, taken = r, l, token.GTR, !taken
+							}
+							if lc, ok := l.(*ssa.Call); ok && op == token.GTR && r == ssa.Value(n) {
+								if bi, ok := lc.Call.Value.(*ssa.Builtin); ok && bi.Name() == "len" && lc.Call.Args[0] == ssa.Value(s) && !taken {
+									tested = true
+								}
+							}
+						}
+					case paths.EvInstr:
+						if st, ok := e.Instr.(*ssa.Store); ok {
+							if _, f, ok := fieldOfAddr(st.Addr); ok && f.Name() == "opError" {
+								stored = true
+							}
+						}
+						if call, ok := e.Instr.(*ssa.Call); ok {
+							if n := calleeName(call); strings.HasSuffix(n, "ByteBuffer).WriteString") || strings.HasSuffix(n, "ByteBuffer).Write") {
+								appended = true
+							}
+						}
+					}
+				}
+				if enteredWithError || stored {
+					continue
+				}
+				if !tested {
+					problems = append(problems, "an error-free path returns without having tested len(s) > n: a value that does not fit its slot is dropped silently instead of refused")
+				}
+				if !appended {
+					problems = append(problems, "an error-free path returns without appending the slot")
+				}
+			}
+			c.Decide(len(problems) == 0, rule, "packet.Writer.WriteFixedLenString#always-tested", fpos, fmt.Sprintf("%d paths: every error-free exit passed the fit test and the append", len(ps)), strings.Join(dedup(problems), "; "))
+		}
 		// (b) content: s followed by n-len(s) zero octets
 		ws := callsTo(wfs, bbpPath, "ByteBuffer.WriteString")
 		wr := callsTo(wfs, bbpPath, "ByteBuffer.Write")
